@@ -9,6 +9,7 @@ for _l in open(os.path.join(VERIF, 'properties.jsonl')):
     if _l.strip():
         _p = json.loads(_l); PROPS[_p['id']] = _p
 
+FALLBACK_UNWIND = 4
 GLOBAL_ASSUMPTIONS = [
     'clang-14 AST of the translation units (Linux, Qt 5.15.8, QTLOGGER_STATIC, QTLOGGER_SYSLOG, threads on) is a faithful reading of what g++-12 compiles; other #if branches are not covered',
     'the lowering rules of DESIGN 2.2 implement C++ semantics (range-for order, RAII scope exit, member-initialiser order, value semantics of implicitly shared Qt types, const references to Qt value types as copies)',
@@ -170,8 +171,27 @@ def run_check(prop, tier, only=None, jobs=14, show=None):
         replay_paths.append(path)
         loose = u.unannotated_loops(p)
         if not reproduced and loose:
-            # undischarged != violated: the proof contains loops that the sidecar does not annotate (new or reshaped
-            # code), abstracted by havoc; without a failing input on the real code this is not a verdict
+            # undischarged != violated: the proof contains loops that the sidecar does not annotate (new or reshaped code), abstracted by
+            # havoc; without a failing input on the real code this is not a verdict.  BOUNDED STAND-IN: the same function and contract
+            # with NO loop contract at all, every loop unwound FALLBACK_UNWIND times (longer executions cut off): if that discharges
+            # everything the property held on everything explored (labelled bounded, never counted as proved); if it fails, the
+            # counterexample is a real execution of the lowered code within the bound -> violation
+            p3 = engine.Proof(p.kind, p.target, dict(p.opts, fallback_unwind=str(FALLBACK_UNWIND), canary='0'))
+            try: u.prove(p3)
+            except Exception as e: p3.status = 'UNDECIDED'; p3.reason = 'internal error: %r' % e
+            solver_s += p3.seconds
+            f3 = [x for x in p3.results if x['status'] != 'SUCCESS' and not machinery_failure(x)]
+            if p3.status != 'UNDECIDED' and p3.results and not f3 and not any(machinery_failure(x) for x in p3.results if x['status'] != 'SUCCESS'):
+                bounded.append({'proof': p.target, 'unwind': str(FALLBACK_UNWIND), 'obligations': len(p3.results), 'failed': 0,
+                                'reason': 'loop contract(s) %s of the sidecar do not apply to the current shape of the code; bounded stand-in: no loop contracts, every loop unwound %d times, longer executions not explored' % (', '.join(loose), FALLBACK_UNWIND)})
+                out_lines.append('BOUNDED property=%s unit=%s:%s loop contracts do not match the code shape (%s); bounded stand-in (unwind %d, no unwinding assertions) discharged %d obligations: not counted as proved'
+                                 % (prop, u.name, p.target, ', '.join(loose), FALLBACK_UNWIND, len(p3.results)))
+                continue
+            if p3.status != 'UNDECIDED' and f3:
+                path, _ = make_replay(prop, u, p3, f3)
+                out_lines.append('VIOLATION property=%s replay=%s obligation=%s (bounded run, unwind %d) no-failing-input-found' % (prop, path, f3[0].get('property'), FALLBACK_UNWIND))
+                nviol += 1; rc = 1
+                continue
             undecided.append((u.name + ':' + p.target, 'obligation %s failed, but the proof contains loop(s) without a loop contract (%s) and native replay found no failing input: undischarged, not a verdict (replay file %s)'
                               % (fails[0].get('property'), ', '.join(loose), path)))
             continue
@@ -183,11 +203,13 @@ def run_check(prop, tier, only=None, jobs=14, show=None):
     # the deductive check is undecided (lowering/model gap, reshaped code, timeout) and reported no violation: the property's native
     # replay search still runs on the real code; a failing input it finds IS a violation (a real input on the real code), its silence
     # decides nothing
-    if undecided and rc == 0 and os.path.exists(os.path.join(VERIF, 'replay', prop + '.py')):
+    native_search = None
+    if (undecided or tier == 'thorough') and rc == 0 and os.path.exists(os.path.join(VERIF, 'replay', prop + '.py')):
         d = os.path.join(engine.BUILD, 'replay', prop); os.makedirs(d, exist_ok=True)
-        path = os.path.join(d, 'undecided.search.json')
+        path = os.path.join(d, 'undecided.search.json' if undecided else 'thorough.search.json')
         rec = {'property': prop, 'statement': PROPS.get(prop, {}).get('statement'), 'undecided': [{'unit': n, 'reason': w[:400]} for n, w in undecided],
-               'note': 'the contract proof could not be completed on this tree (see undecided); this failing input was found by the native replay search on the real code'}
+               'note': ('the contract proof could not be completed on this tree (see undecided); this failing input was found by the native replay search on the real code' if undecided else
+                        'thorough tier: every contract obligation was discharged; this failing input was found by the bounded native replay search on the real code, which the contracts/models did not anticipate')}
         try:
             spec = importlib.util.spec_from_file_location('replay_' + prop, os.path.join(VERIF, 'replay', prop + '.py'))
             mod = importlib.util.module_from_spec(spec); spec.loader.exec_module(mod)
@@ -195,6 +217,7 @@ def run_check(prop, tier, only=None, jobs=14, show=None):
         except Exception as e:
             reproduced, text = False, 'replay driver failed: %r' % e
         rec['native_replay'] = {'reproduced': reproduced, 'output': text}
+        native_search = {'kind': 'bounded native search on the real code (proves nothing)', 'driver': 'replay/%s.py' % prop, 'failing_input_found': bool(reproduced), 'output_tail': text[-600:]}
         if reproduced:
             json.dump(rec, open(path, 'w'), indent=1)
             out_lines.append('VIOLATION property=%s replay=%s' % (prop, path))
@@ -227,6 +250,7 @@ def run_check(prop, tier, only=None, jobs=14, show=None):
             'proofs': proofs_ev,
             'bounded_stand_ins': bounded,
             'second_backend': second,
+            'native_search': native_search,
             'solver_seconds_total': round(solver_s, 1),
             'lowering_rule_applications': lowering_rules,
             'lowering_drops': ['comments', 'access control', 'const/noexcept/override/inline', 'destructors of non-RAII value types',
@@ -248,10 +272,19 @@ def run_check(prop, tier, only=None, jobs=14, show=None):
     return rc
 
 def property_assumptions(prop):
+    out = []
     p = os.path.join(VERIF, 'contracts', prop, 'ASSUMPTIONS.txt')
     if os.path.exists(p):
-        return [l.strip() for l in open(p) if l.strip() and not l.startswith('#')]
-    return []
+        out += [l.strip() for l in open(p) if l.strip() and not l.startswith('#')]
+    # the per-property note of the claims table (what is assumed / not decided), the same text as MANIFEST level_note
+    try:
+        spec = importlib.util.spec_from_file_location('manifest_table', os.path.join(VERIF, 'tools', 'manifest_table.py'))
+        mod = importlib.util.module_from_spec(spec); spec.loader.exec_module(mod)
+        note = mod.CLAIMS.get(prop, {}).get('note')
+        if note: out.append('property-specific (claims table): ' + note)
+    except Exception:
+        pass
+    return out
 
 def assumption_scan(prop):
     """Mechanical scan of sidecars and models for assumptions (DESIGN 2.6)."""
@@ -268,6 +301,19 @@ def assumption_scan(prop):
                 notes.append('explicit assumption in %s:%d: %s' % (os.path.basename(f), ln, line.strip()))
             if 'unwind=' in line and '//@' in line:
                 notes.append('bounded stand-in declared in %s:%d: %s' % (os.path.basename(f), ln, line.strip()))
+    # shared headers and models the sidecars include (transitively): every __CPROVER_assume there is an assumption of a TRUSTED model
+    seen = set(); todo = list(files)
+    while todo:
+        f = todo.pop()
+        if f in seen or not os.path.exists(f): continue
+        seen.add(f)
+        txt = open(f).read()
+        for inc in re.findall(r'#\s*include\s+"((?:contracts|models)/[^"]+)"', txt):
+            todo.append(os.path.join(VERIF, inc))
+        if f not in files:
+            n = txt.count('__CPROVER_assume'); k = len(re.findall(r'^static inline ', txt, re.M)); c = len(re.findall(r'__CPROVER_ensures', txt))
+            notes.append('trusted header %s: %d model function(s), %d explicit __CPROVER_assume, %d ensures clause(s) of bodyless (assumed or separately proved) contracts'
+                         % (os.path.relpath(f, VERIF), k, n, c))
     return {'notes': notes, 'lemma_requires': lemma, 'model_contracts': sorted(set(models))}
 
 # ---------------------------------------------------------------------- replay
